@@ -117,7 +117,7 @@ def build_program(rows, seed, structured):
         marker = "P%d" % i
         L = lambda: gen.lay(f["lay"], rnd, "\n", indent="        ")
         macro = f["level"] if f["path"] == "bare" else "log::" + f["level"]
-        bang = f.get("bang", "tight")
+        bang = f.get("bang", "tight") if core.SPACED_BANG else "tight"
         parts = [macro, {"sp": " ", "nl": "\n        ", "cm": " /* lvl */ "}.get(bang, ""), "!", " " if bang == "sp_after" else "", "(", L()]
         if f["target"] != "none":
             if f["target"].startswith("expr_"):
